@@ -106,12 +106,15 @@ def _work(args):
 
 
 def digests_cli(prop, tier, base_seed, n):
-    """Fresh-interpreter half of the determinism self-test."""
-    out = []
-    for i in range(n):
+    """Fresh-interpreter half of the determinism self-test.  The cases are
+    run in REVERSE order, so that a result that depends on what the process
+    executed earlier (warm caches, first-call paths) shows up as a digest
+    mismatch against the forward in-process passes."""
+    out = {}
+    for i in reversed(range(n)):
         _, res = run_one(prop, tier, base_seed, i)
-        out.append((i, res.digest))
-    print(json.dumps(out))
+        out[i] = res.digest
+    print(json.dumps([(i, out[i]) for i in range(n)]))
 
 
 def determinism_selftest(prop, tier, base_seed, n):
